@@ -17,6 +17,12 @@ Honest clients also leave optional parameters out: no qop/nc/cnonce (RFC 2069
 form) and no algorithm parameter (which RFC 2617 3.2.1 defines to mean MD5,
 whatever algorithm the factory was configured to offer).
 
+A request seen before is presented again byte for byte - at once or after the clock has moved past the lifetime, from the same or
+from another address - and is judged by the statement at that moment (whatever a factory or a credentials object remembers).
+In half of the runs a second kind of checker stands beside the password-storing one: it keeps H(username:realm:password) and asks
+the decoded credentials through checkHash, in tape-chosen order with the checkPassword questions; the same accept/reject clauses
+apply to it (clause names with the suffix -checkHash).
+
 Oracle (from the statement):
   valid context (unmodified response to an issued challenge, same address,
   age <= lifetime)            -> decode succeeds and checkPassword(p) is true
@@ -33,10 +39,13 @@ Oracle (from the statement):
                                  is unambiguous, not from the decoded object's
                                  field table; absent algorithm = MD5);
   always                      -> decode raises nothing but LoginFailed and
-                                 checkPassword raises nothing.
-The last clause has one signature per escaping exception type (see KNOWN).
-Three quarters of the runs (`avoid_known`) restrict mutations to classes that cannot reach
-those escapes, so the accept/reject clauses are exercised on full histories.
+                                 checkPassword / checkHash raise nothing.
+The last clause has one signature per entry point and escaping exception type (see KNOWN; all
+REPAIRED in /repo 3cc82cb).  A share of the runs (`avoid_known`, 15%, kept for dev-time comparison)
+restricts mutations to classes that cannot reach those escapes.
+Three points on which the tree as first examined departed from the letter of the statement are behind module-level knobs
+(OPAQUE_TEXT_STRICT_P, QUOTED_BLANKS_STRICT_P, HASH_ENTRY_ON_WILD_P; see there); all three are REPAIRED in /repo
+(8142fa3, 953247d, 80b08da) and the knobs are at 1.0.
 """
 import base64
 import hashlib
@@ -62,7 +71,9 @@ RULE = ("run = 1..3 factories at the start (md5/sha, direct or via the twisted.w
         "created in mid-history; 6..24 tape-chosen steps: create another factory, issue a challenge to one of 3 addresses, "
         "advance the clock (seconds to twice the lifetime, or exactly to lifetime-1/lifetime/lifetime+1 of a chosen challenge), or answer a chosen challenge with a "
         "response of a drawn class (honest, legacy-no-qop, algorithm parameter left out (hashed with MD5 as the header then denotes, or with the challenge's algorithm), wrong password, other address, other factory, nonce tamper, opaque tamper/forgery/truncation, "
-        "field drop, field value byte mutation, raw header byte mutation, algorithm/qop substitution); "
+        "field drop, field value byte mutation, raw header byte mutation, algorithm/qop substitution), or present one of the last 8 requests again byte for byte "
+        "(now or after the lifetime, a quarter of them from another address); in half of the runs every decoded credentials object is also asked through checkHash "
+        "with the H(A1) a hash-storing checker has on file for the decoded user, interleaved with the checkPassword questions; "
         "non-trivial = at least one accepted honest response AND at least two rejected/mutated responses")
 ASSUMPTIONS = ["times are whole seconds apart (the implementation truncates to int seconds; sub-second age is not judged)",
                "a response whose age equals the lifetime exactly is 'within' the lifetime",
@@ -72,13 +83,44 @@ ASSUMPTIONS = ["times are whole seconds apart (the implementation truncates to i
                "must be the digest for the algorithm the header denotes, never for another one (e.g. the factory's)",
                "what a header denotes is taken from the client's own parameter dict when every value is plain (printable ASCII, no quote/backslash/comma, blanks only "
                "inside quoted values, unquoted values bare tokens) and the header has no raw edit; otherwise from the decoded fields as before",
-               "a response repeated unchanged is accepted again (the statement does not make challenges single-use)",
+               "a response repeated unchanged is accepted again (the statement does not make challenges single-use) - as long as its challenge is within "
+               "its lifetime and it comes from the address the challenge was issued to; a repetition after the lifetime or from elsewhere must be refused",
+               "a hash-storing checker looks the account up by the decoded user name and hands checkHash H(username:realm:password) computed with the factory's "
+               "algorithm; it asks nothing about a user name it does not know.  A valid response is accepted exactly for the H(A1) of the password the client used; "
+               "an acceptance for a header that denotes another algorithm than the one the H(A1) on file was made with gets no verdict on the response hash",
+               "checkHash is asked for the wild mutation classes only in a HASH_ENTRY_ON_WILD_P share of the runs (0.0 until checkHash has the guards of checkPassword); "
+               "a quoted value with a blank at either end is judged by the decoded (stripped) fields unless the run is strict (QUOTED_BLANKS_STRICT_P); "
+               "the lenient-base64 assumption above is dropped in strict runs (OPAQUE_TEXT_STRICT_P)",
                "'issued' is per factory: an unaltered answer to a challenge of one factory is not an issued challenge for any other factory of the process "
                "(same or other realm, created before or after the challenge); the random source never returns the same value twice in a history, so "
                "two factories have nothing in common unless the code under test shares it"]
 
 KNOWN = ["C48:decode-raised:binascii.Error", "C48:decode-raised:UnicodeDecodeError",
-         "C48:checkPassword-raised:KeyError", "C48:checkPassword-raised:TypeError"]
+         "C48:checkPassword-raised:KeyError", "C48:checkPassword-raised:TypeError",
+         # round 6, behind the knobs below (now 1.0; the defects are REPAIRED in /repo 80b08da, 8142fa3, 953247d):
+         "C48:checkHash-raised:KeyError", "C48:checkHash-raised:TypeError", "C48:unaltered-opaque-text:lenient-base64",
+         "C48:accepted-is-justified:quoted-blanks-context", "C48:accepted-is-justified:quoted-blanks-response-hash"]
+
+# Knobs for three behaviours of the tree as first examined, found by reading (round 6), each inside the letter of the statement ("accept ...
+# if and only if ... over an unaltered challenge", "any malformed or tampered response is rejected as an ordinary login failure, never another
+# exception") - genuine defects, all three REPAIRED in /repo (8142fa3, 953247d, 80b08da).  Each knob is the share of the runs in which the
+# oracle insists on the point: now 1.0 (every run); 0.0 = the point gets no verdict (only a probe counts how often the real code meets it)
+# and is only for dev-time comparison.  What each defect was, before its repair:
+#  * OPAQUE_TEXT_STRICT_P: an opaque whose text differs from the issued one, but whose base64 part decodes (leniently: alphabet-foreign
+#    bytes skipped, surplus padding, loose trailing bits) to the same key, was accepted by _verifyOpaque (repaired: 8142fa3).  Strict runs
+#    report it as C48:unaltered-opaque-text:lenient-base64.
+#  * QUOTED_BLANKS_STRICT_P: decode() stripped blanks from the content of QUOTED values (repaired: 953247d), so nonce=" <issued>",
+#    opaque="<issued> ", response=" <hash>" ... were accepted although the parameter the header denotes (RFC 7230 quoted-string: the content is literal) was never
+#    issued / is not the digest.  Strict runs judge such headers by the parameters as sent; signatures C48:accepted-is-justified:quoted-blanks-*.
+#  * HASH_ENTRY_ON_WILD_P: DigestedCredentials.checkHash (the entry point of checkers that store H(A1) instead of the password) lacked the
+#    guards checkPassword has (repaired: 80b08da): algorithm=md6 -> KeyError; missing uri / qop=auth-int / md5-sess without cnonce -> TypeError.  checkHash is
+#    always asked for the mutation classes that cannot reach these; in this share of the runs also for the others
+#    (signatures C48:checkHash-raised:KeyError / TypeError).
+OPAQUE_TEXT_STRICT_P = 1.0
+QUOTED_BLANKS_STRICT_P = 1.0
+HASH_ENTRY_ON_WILD_P = 1.0
+HASH_CHECKER_P = 0.5     # share of the runs in which a hash-storing checker (checkHash) stands beside the password-storing one
+REPEAT_LOG = 8           # how many earlier requests are kept for byte-identical repetition
 
 DEV_IGNORE = set(filter(None, os.environ.get("VERIF_C48_DEV_IGNORE", "").split(",")))
 LIFETIME = 15 * 60
@@ -99,8 +141,13 @@ def H(algo, data):
     return (hashlib.md5 if algo == b"md5" else hashlib.sha1)(data).hexdigest().encode("ascii")
 
 
+def stored_ha1(algo, user, realm, pw):
+    """What a checker that keeps H(A1) instead of the password has on file (RFC 2617 3.2.2.2, unq(username) ":" unq(realm) ":" passwd)."""
+    return H(algo, user + b":" + realm + b":" + pw)
+
+
 def client_response(algo, user, realm, pw, method, uri, nonce, nc=None, cnonce=None, qop=None, sess=False):
-    ha1 = H(algo, user + b":" + realm + b":" + pw)
+    ha1 = stored_ha1(algo, user, realm, pw)
     if sess:
         # RFC 2617 3.2.2.2 (as clarified by its erratum: the hex form of the inner hash), session variant
         ha1 = H(algo, ha1 + b":" + nonce + b":" + cnonce)
@@ -151,10 +198,13 @@ def lenient_b64(s):
         return None
 
 
-def plain(value, quoted):
+def plain(value, quoted, outer_blanks=False):
     """Does this parameter value read the same under any sensible parser?  Printable ASCII without quote, backslash or comma; not
-    empty; blanks only inside a quoted value; a value sent without quotes must be a bare token."""
-    if not value or value != value.strip() or any(b < 0x20 or b >= 0x7f or b in b'"\\,' for b in value):
+    empty; blanks only inside a quoted value; a value sent without quotes must be a bare token.  Blanks at either end of a quoted
+    value are part of the value by the grammar, but parsers are known to drop them: only with outer_blanks such a value counts as plain."""
+    if not value or not value.strip(b" ") or any(b < 0x20 or b >= 0x7f or b in b'"\\,' for b in value):
+        return False
+    if value != value.strip() and not (outer_blanks and quoted):
         return False
     return quoted or all(b in b"ABCDEFGHIJKLMNOPQRSTUVWXYZabcdefghijklmnopqrstuvwxyz0123456789-" for b in value)
 
@@ -199,8 +249,15 @@ def _run(sim):
     # by the true age: <= lifetime must be accepted, >= lifetime + 1 must be refused.  All times are multiples of 1/8 s (exact floats).
     fractional = sim.draw_bool(0.4, "fractional_clock")
     sim.config["fractional_clock"] = fractional
+    # A checker that stores H(username:realm:password) instead of the password asks the decoded credentials through checkHash.
+    hash_checker = sim.draw_bool(HASH_CHECKER_P, "hash_checker")
+    hash_on_wild = HASH_ENTRY_ON_WILD_P > 0 and sim.draw_bool(HASH_ENTRY_ON_WILD_P, "hash_entry_on_wild")
+    strict_opaque = OPAQUE_TEXT_STRICT_P > 0 and sim.draw_bool(OPAQUE_TEXT_STRICT_P, "opaque_text_strict")
+    strict_blanks = QUOTED_BLANKS_STRICT_P > 0 and sim.draw_bool(QUOTED_BLANKS_STRICT_P, "quoted_blanks_strict")
+    sim.config.update({"hash_checker": hash_checker, "hash_entry_on_wild": hash_on_wild, "opaque_text_strict": strict_opaque,
+                       "quoted_blanks_strict": strict_blanks})
     clock = sim.clock
-    clock.advance(start + (sim.draw_int(0, 7, "t0_eighths") / 8.0 if fractional else 0))
+    clock.advance(start +(sim.draw_int(0, 7, "t0_eighths") / 8.0 if fractional else 0))
     addrs = [a for a in ADDRS if a is not None] if via_web else ADDRS
 
     # Several independent factories live side by side (several sites / guarded resources of one process, for the same or for
@@ -273,9 +330,10 @@ def _run(sim):
             return
         sim.fail(clause, excname(e), detail)
 
-    def evaluate(kind, expect, fidx, header, method, addr, used_pw, right_pw, sent=None):
+    def evaluate(kind, expect, fidx, header, method, addr, used_pw, right_pw, sent=None, wild=False, account=None):
         """expect: 'valid' | 'invalid' | 'free'.  sent: the parameters the header denotes (the client's own dict), when the header
-        was rendered from plain values without raw edits and so denotes them unambiguously; None otherwise."""
+        was rendered from plain values without raw edits and so denotes them unambiguously; None otherwise.  account: the user name
+        of the account the client answers for (the hash-storing checker has that account's H(A1) values on file)."""
         sim.event("respond", kind, expect, fidx, addr or "-", header)
         creds = None
         try:
@@ -284,61 +342,101 @@ def _run(sim):
             sim.event("decode", "LoginFailed")
         except Exception as e:
             escaped("decode-raised", e, "%s response made decode() raise %s: %s; header=%r" % (kind, excname(e), str(e)[:120], header))
-        verdicts = {}
+        verdicts = {"password": {}, "hash": {}}
         if creds is not None:
             sim.check("decode-returns-credentials", isinstance(creds, credentials.DigestedCredentials), "type", "decode returned %r" % (creds,))
             # the same credentials object is asked about several candidate passwords, in tape-chosen order
             # (a checker may hold several secrets for a user; verdicts must not depend on earlier questions)
-            for pw in sim.draw_perm(sorted({used_pw, right_pw, WRONG})):
+            cands = sorted({used_pw, right_pw, WRONG})
+            questions = [("password", pw) for pw in cands]
+            # ... and, in runs with a hash-storing checker, through the other entry point as well: such a checker looks the account up
+            # by the decoded user name and hands checkHash the H(A1) it has on file (computed with the factory's algorithm when the
+            # account was created); it has nothing to ask about a name it does not know.
+            if hash_checker and (hash_on_wild or not wild):
+                if account is not None and getattr(creds, "username", None) == account:
+                    questions += [("hash", pw) for pw in cands]
+                    sim.probe("hash_entry_asked")
+                else:
+                    sim.probe("hash_checker_does_not_know_the_decoded_user")
+            for entry, pw in sim.draw_perm(questions):
                 try:
-                    verdicts[pw] = bool(creds.checkPassword(pw))
+                    if entry == "password":
+                        verdicts[entry][pw] = bool(creds.checkPassword(pw))
+                    else:
+                        verdicts[entry][pw] = bool(creds.checkHash(stored_ha1(algo, account, realms[fidx], pw)))
                 except Exception as e:
-                    escaped("checkPassword-raised", e, "%s response made checkPassword() raise %s: %s; header=%r" % (kind, excname(e), str(e)[:120], header))
-                    verdicts[pw] = False
-            sim.event("checkPassword", *["%s=%s" % (k.decode(), v) for k, v in sorted(verdicts.items())])
-        accepted = sorted(pw for pw, v in verdicts.items() if v)
+                    name = "checkPassword" if entry == "password" else "checkHash"
+                    escaped(name + "-raised", e, "%s response made %s() raise %s: %s; header=%r" % (kind, name, excname(e), str(e)[:120], header))
+                    verdicts[entry][pw] = False
+            for entry in ("password", "hash"):
+                if verdicts[entry]:
+                    sim.event("checkPassword" if entry == "password" else "checkHash", *["%s=%s" % (k.decode(), v) for k, v in sorted(verdicts[entry].items())])
         if expect == "valid":
-            sim.check("valid-accepted", creds is not None, kind, "a valid response was rejected by decode(); header=%r" % header)
-            sim.check("valid-accepted", verdicts.get(used_pw) is True, kind, "checkPassword(password the client used) is False for a valid response; header=%r" % header)
-            sim.check("only-used-password", accepted == [used_pw], kind, "accepted passwords %r, client used %r" % (accepted, used_pw))
             st["accepted"] += 1
         elif expect == "invalid":
-            sim.check("invalid-rejected", not accepted, kind,
-                      "a %s response was accepted for password(s) %r at t=%d; header=%r" % (kind, accepted, now_int(), header))
             st["rejected"] += 1
         else:
             st["mutated"] += 1
-            if accepted:
-                sim.probe("mutated_but_accepted")
-                # What the header denotes is judged from what the client SENT wherever that is unambiguous (plain values, no raw
-                # edit): a parameter the client left out is absent (RFC 2617 3.2.1: no algorithm parameter = MD5; no qop = the
-                # RFC 2069 form), whatever the decoded object's field table says by then.  Only for headers whose reading depends on
-                # the parser (quotes, commas, control bytes, raw edits) the decoded fields are used.
-                if sent is not None:
-                    f, username = sent, sent.get("username")
-                    sim.probe("acceptance_judged_by_sent_parameters")
-                else:
-                    f, username = creds.fields, creds.username
-                    sim.probe("acceptance_judged_by_decoded_fields")
-                nonce, opaque = f.get("nonce"), f.get("opaque")
-                ok = nonce is not None and opaque is not None and (context_valid(fidx, addr, nonce, opaque) or equivalent_opaque(fidx, addr, nonce, opaque))
-                sim.check("accepted-is-justified", ok, "context",
-                          "a mutated response was accepted although its nonce/opaque are not an issued, unexpired challenge for %s; header=%r" % (addr, header))
-                sim.check("accepted-is-justified", len(accepted) == 1, "two-passwords", "accepted for passwords %r; header=%r" % (accepted, header))
-                sim.check("accepted-is-justified", accepted == [used_pw], "other-password", "accepted for %r, the client used %r; header=%r" % (accepted, used_pw, header))
-                a = f.get("algorithm", b"md5").lower()
-                want = None
-                if username and f.get("uri") is not None and a in (b"md5", b"sha", b"md5-sess"):
-                    h = b"md5" if a == b"md5-sess" else a
-                    if f.get("qop") == b"auth" and f.get("nc") and f.get("cnonce"):
-                        want = client_response(h, username, realms[fidx], accepted[0], method, f["uri"], nonce, f["nc"], f["cnonce"], b"auth", sess=(a == b"md5-sess"))
-                    elif a != b"md5-sess" and "qop" not in f and "nc" not in f and "cnonce" not in f:
-                        want = client_response(h, username, realms[fidx], accepted[0], method, f["uri"], nonce)    # RFC 2069 form
-                        sim.probe("accepted_legacy_form_judged")
-                if want is not None:
-                    sim.check("accepted-is-justified", f.get("response") == want, "response-hash",
-                              "accepted although response=%r is not the RFC 2617 digest %r for the algorithm the header denotes (%r); header=%r"
-                              % (f.get("response"), want, a, header))
+        judge("password", "", verdicts["password"], creds, kind, expect, fidx, header, method, addr, used_pw, sent)
+        if verdicts["hash"]:
+            judge("hash", "-checkHash", verdicts["hash"], creds, kind, expect, fidx, header, method, addr, used_pw, sent)
+
+    def judge(entry, suffix, verdicts, creds, kind, expect, fidx, header, method, addr, used_pw, sent):
+        """The accept/reject clauses for one entry point (checkPassword: clause names as they always were; checkHash: the same names
+        with the suffix -checkHash).  For checkHash 'accepted for password p' reads 'accepted for the H(A1) on file for p'."""
+        accepted = sorted(pw for pw, v in verdicts.items() if v)
+        if expect == "valid":
+            if entry == "password":
+                sim.check("valid-accepted", creds is not None, kind, "a valid response was rejected by decode(); header=%r" % header)
+            sim.check("valid-accepted" + suffix, verdicts.get(used_pw) is True, kind, "%s(password the client used) is False for a valid response; header=%r" % (entry, header))
+            sim.check("only-used-password" + suffix, accepted == [used_pw], kind, "accepted passwords %r, client used %r" % (accepted, used_pw))
+        elif expect == "invalid":
+            sim.check("invalid-rejected" + suffix, not accepted, kind,
+                      "a %s response was accepted for password(s) %r at t=%d; header=%r" % (kind, accepted, now_int(), header))
+        elif accepted:
+            sim.probe("mutated_but_accepted")
+            # What the header denotes is judged from what the client SENT wherever that is unambiguous (plain values, no raw
+            # edit): a parameter the client left out is absent (RFC 2617 3.2.1: no algorithm parameter = MD5; no qop = the
+            # RFC 2069 form), whatever the decoded object's field table says by then.  Only for headers whose reading depends on
+            # the parser (quotes, commas, control bytes, raw edits) the decoded fields are used.
+            if sent is not None:
+                f, username = sent, sent.get("username")
+                sim.probe("acceptance_judged_by_sent_parameters")
+            else:
+                f, username = creds.fields, creds.username
+                sim.probe("acceptance_judged_by_decoded_fields")
+            # (strict runs only) a quoted value sent with blanks at either end: signatures of their own, see QUOTED_BLANKS_STRICT_P
+            tag = "quoted-blanks-" if sent is not None and any(v != v.strip() for v in sent.values()) else ""
+            nonce, opaque = f.get("nonce"), f.get("opaque")
+            exact = nonce is not None and opaque is not None and context_valid(fidx, addr, nonce, opaque)
+            ok = exact or (nonce is not None and opaque is not None and equivalent_opaque(fidx, addr, nonce, opaque))
+            sim.check("accepted-is-justified" + suffix, ok, tag + "context",
+                      "a mutated response was accepted although its nonce/opaque are not an issued, unexpired challenge for %s; header=%r" % (addr, header))
+            if ok and not exact:
+                # the opaque is not the issued text, but its base64 part decodes leniently to the same key (see OPAQUE_TEXT_STRICT_P)
+                sim.probe("accepted_opaque_differs_textually_same_content")
+                if strict_opaque:
+                    sim.check("unaltered-opaque-text" + suffix, False, "lenient-base64",
+                              "accepted although the opaque %r is not the text that was issued (it only decodes to the same key); header=%r" % (opaque, header))
+            sim.check("accepted-is-justified" + suffix, len(accepted) == 1, "two-passwords", "accepted for passwords %r; header=%r" % (accepted, header))
+            sim.check("accepted-is-justified" + suffix, accepted == [used_pw], "other-password", "accepted for %r, the client used %r; header=%r" % (accepted, used_pw, header))
+            a = f.get("algorithm", b"md5").lower()
+            want = None
+            if username and f.get("uri") is not None and a in (b"md5", b"sha", b"md5-sess"):
+                h = b"md5" if a == b"md5-sess" else a
+                if entry == "hash" and h != algo:
+                    # the H(A1) on file was made with the factory's algorithm, the header denotes another one: no client of this
+                    # workload computes such a mixture and the statement says nothing about it - no verdict on the hash itself
+                    pass
+                elif f.get("qop") == b"auth" and f.get("nc") and f.get("cnonce"):
+                    want = client_response(h, username, realms[fidx], accepted[0], method, f["uri"], nonce, f["nc"], f["cnonce"], b"auth", sess=(a == b"md5-sess"))
+                elif a != b"md5-sess" and "qop" not in f and "nc" not in f and "cnonce" not in f:
+                    want = client_response(h, username, realms[fidx], accepted[0], method, f["uri"], nonce)    # RFC 2069 form
+                    sim.probe("accepted_legacy_form_judged")
+            if want is not None:
+                sim.check("accepted-is-justified" + suffix, f.get("response") == want, tag + "response-hash",
+                          "accepted although response=%r is not the RFC 2617 digest %r for the algorithm the header denotes (%r); header=%r"
+                          % (f.get("response"), want, a, header))
 
     def mutate_bytes(data, alphabet, label):
         """One byte-level edit (replace/insert/delete) at a tape-chosen position."""
@@ -359,13 +457,44 @@ def _run(sim):
         choices = [bytes([c]) for c in alphabet if bytes([c]) != cur]
         return data[:pos] + sim.draw_choice(choices, "newchar") + data[pos + 1:]
 
-    def respond():
-        c = sim.draw_choice(issued, "challenge")
+    def settle(c):
         if LIFETIME < clock.seconds() - c.when < LIFETIME + 1:
             # the implementation's whole-second bookkeeping may or may not regard this challenge as expired: no verdict; let the doubt pass
             sim.probe("age_within_truncation_window_no_verdict")
             clock.advance(1)
             sim.sim_time += 1
+
+    sent_log = []
+
+    def repeat():
+        """A request seen before arrives again, byte for byte (clients repeat their Authorization header; so do eavesdroppers), now
+        or much later, from where it came or from elsewhere.  Its verdict is that of the statement at THIS moment: nothing a factory
+        or a credentials object remembers of the first time may stand in for the checks."""
+        r = sim.draw_choice(sent_log, "which")
+        c, addr, expect = r["challenge"], r["addr"], r["expect"]
+        settle(c)
+        fresh = clock.seconds() - c.when <= LIFETIME
+        sim.fault("request_repeated")
+        if r["fresh"] and not fresh:
+            # then within the lifetime, now beyond it
+            sim.fault("request_repeated_after_expiry")
+            expect = "free" if expect == "free" else "invalid"
+        if sim.draw_bool(0.25, "from_elsewhere"):
+            others = [a for a in addrs if (a or None) != (addr or None)]
+            addr = sim.draw_choice(others, "addr")
+            sim.fault("request_repeated_from_other_address")
+            if expect == "valid":
+                expect = "invalid"
+            elif expect == "invalid" and (addr or None) == (c.addr or None) and fresh:
+                expect = "free"     # e.g. an other-address replay brought back to the address the challenge was issued to
+        if expect == "valid":
+            sim.probe("repeated_request_still_valid")
+        evaluate("repeated-" + r["kind"], expect, r["fidx"], r["header"], r["method"], addr, r["used_pw"], r["right_pw"], r["sent"],
+                 wild=r["wild"], account=r["account"])
+
+    def respond():
+        c = sim.draw_choice(issued, "challenge")
+        settle(c)
         user, right_pw = sim.draw_choice(USERS, "user")
         method = sim.draw_choice([b"GET", b"POST"], "method")
         uri = sim.draw_choice([b"/", b"/a/b?c=d", b"/write/"], "uri")
@@ -529,12 +658,23 @@ def _run(sim):
         sent = None
         if kind not in ("raw-wild", "truncate-header") and all(plain(v, quote_all or k not in ("algorithm", "qop", "nc")) for k, v in fields.items()):
             sent = dict(fields)
-        evaluate(kind, expect, fidx, header, method, addr, used_pw, right_pw, sent)
+        elif kind not in ("raw-wild", "truncate-header") \
+                and all(plain(v, quote_all or k not in ("algorithm", "qop", "nc"), outer_blanks=True) for k, v in fields.items()):
+            # otherwise plain, but a quoted value begins or ends with a blank: by the grammar the blank belongs to the value; the
+            # implementation drops it.  Judged as sent in strict runs only (QUOTED_BLANKS_STRICT_P), by the decoded fields otherwise.
+            sim.probe("quoted_value_with_outer_blanks_sent")
+            if strict_blanks:
+                sent = dict(fields)
+        is_wild = kind in [k for k, _ in wild]
+        evaluate(kind, expect, fidx, header, method, addr, used_pw, right_pw, sent, wild=is_wild, account=user)
+        sent_log.append({"kind": kind, "expect": expect, "fresh": fresh, "challenge": c, "fidx": fidx, "header": header, "method": method,
+                         "addr": addr, "used_pw": used_pw, "right_pw": right_pw, "sent": sent, "wild": is_wild, "account": user})
+        del sent_log[:-REPEAT_LOG]
 
     for _ in range(nsteps):
         sim.step(200 * sim.depth)
         ops = [("challenge", 4 if len(issued) < 10 else 0), ("respond", 12 if issued else 0), ("advance", 2), ("to-boundary", 2 if issued else 0),
-               ("new-factory", 1 if (issued and len(facs) < MAX_FACTORIES) else 0)]
+               ("new-factory", 1 if (issued and len(facs) < MAX_FACTORIES) else 0), ("repeat", 3 if sent_log else 0)]
         op = sim.draw_weighted(ops, "op")
         if op == "challenge":
             fidx = sim.draw_int(0, len(facs) - 1, "factory")
@@ -568,6 +708,8 @@ def _run(sim):
                 clock.advance(target - age)
                 sim.sim_time += target - age
                 sim.fault("clock_to_lifetime_boundary")
+        elif op == "repeat":
+            repeat()
         else:
             respond()
         if sim.violation is not None:
@@ -596,5 +738,16 @@ MUTANTS = [
     "and no honest client left the parameter out)",
     "credentials.py checkPassword: default algorithm b'md5' -> b'sha': CAUGHT valid-accepted:no-algorithm",
     "credentials.py decode: credentials always built with algorithm=self.algorithm (client's parameter ignored): CAUGHT accepted-is-justified:response-hash",
-    'candidate fix (catch ValueError from b64decode, UnicodeError from nativeString -> LoginFailed; checkPassword returns False for unknown algorithm / missing uri / auth-int / md5-sess without cnonce): full check PASSES without the avoid knob',
+    "round 6: credentials.py decode: verified credentials remembered per (header, method, host) and handed out again without _verifyOpaque: CAUGHT in quick "
+    "invalid-rejected:repeated-honest (before: thorough only - no request was ever presented twice; the repeat family was added)",
+    "round 6: credentials.py checkHash: 'calcHA1(algo, None, None, None, nonce, cnonce, preHA1=digestHash)' -> H(A1) cached on the object after the first call "
+    "(self._ha1 = ...; reused by later calls): CAUGHT valid-accepted-checkHash / only-used-password-checkHash / accepted-is-justified-checkHash:two-passwords",
+    "round 6: credentials.py checkHash: 'return expected == response' -> 'return True': CAUGHT only-used-password-checkHash",
+    "round 6: credentials.py checkHash: algorithm forced to the default (fields.get('algorithm') ignored): CAUGHT valid-accepted-checkHash (sha factories)",
+    "round 6, TREE AS FIRST EXAMINED (80b08da, 8142fa3, 953247d reverted), knobs at 1.0 (their value now): HASH_ENTRY_ON_WILD_P -> checkHash-raised:KeyError (algorithm=md6), checkHash-raised:TypeError (uri dropped / "
+    "qop=auth-int / md5-sess without cnonce); OPAQUE_TEXT_STRICT_P -> unaltered-opaque-text:lenient-base64 (opaque 'dg-!<b64>' accepted); QUOTED_BLANKS_STRICT_P -> "
+    "accepted-is-justified:quoted-blanks-context (nonce=\" <issued>\") / quoted-blanks-response-hash (username=\" alice\").  Genuine defects, REPAIRED in /repo 80b08da, 8142fa3, 953247d.  With the repairs (guards of "
+    "checkPassword copied into checkHash; b64encode(key) != opaqueParts[1] -> LoginFailed; only bare values stripped in decode) the check PASSES with all three knobs at 1.0 "
+    "and the 129 tests of test_digestauth/test_httpauth/test_cred/test_sip pass",
+    'repair of the four escapes listed first in KNOWN, in /repo 3cc82cb (catch ValueError from b64decode, UnicodeError from nativeString -> LoginFailed; checkPassword returns False for unknown algorithm / missing uri / auth-int / md5-sess without cnonce): full check PASSES without the avoid knob',
 ]
